@@ -14,3 +14,5 @@ pub(crate) use poller::{
     ReplicationCycleContext,
     ReplicationHandle,
 };
+#[cfg(feature = "verif")]
+pub use poller::verif_hooks;
